@@ -122,4 +122,61 @@ PROPS = {
         ],
         "trusted_base": ["cooperative scheduler on the verif yield hooks"],
     },
+    "C15": {
+        "suites": ["c15", "c15e2e"],
+        "timeout": {"quick": 120, "thorough": 900},
+        "assumptions": COMMON_ASSUME + [
+            "a UDP socket is a datagram sink: one conn.Write is one datagram or an error; loopback delivers in order and (up to 65507 bytes) whole; the socket's behaviour per send is an input oracle of the model (delivered / send error / sent but nobody listens)",
+            "errors are compared as classes (nil, not-open, too-large, send-error, other); thrift.INVALID_DATA and thrift.NOT_OPEN are the same TTransportException type id (1), so the two are told apart by message",
+            "the model follows repair D9 (poison after a refused write until the next Flush, which discards; the reporter flushes once after an emit that failed on a write); on the pinned tree the difference is the open finding",
+            "through TMultiUDPTransport the property is judged strictly at every destination until a socket fault is injected, afterwards only datagram length and use-after-close (the property promises fan-out only when no destination fails)",
+        ],
+        "trusted_base": [
+            "the harness' loopback sinks (non-blocking drain after every call; 300 ms wait only when the implementation itself reported a successful send)",
+            "thrift decoding of received datagrams in the end-to-end suite (a datagram is clean iff it decodes as exactly one emitMetricBatchV2 message with no bytes left)",
+        ],
+    },
+    "C17": {
+        "suites": ["c17", "c17seq"],
+        "timeout": {"quick": 300, "thorough": 1800},
+        "assumptions": COMMON_ASSUME + [
+            "client_golang v1.11.0 is modelled by the slice of its contract tally relies on (Registry.Register for a single valid descriptor without constant labels: fails iff the fully-qualified name is registered, as AlreadyRegisteredError when help and label names agree, else 'previously registered ... different label names or a different help string'; vec.With get-or-create; Counter.Add, Gauge.Set, histogram Observe via sort.SearchFloat64s with cumulative `le` buckets on Write, summary sample count); the differential run exercises the real library on every case",
+            "domain: Prometheus-valid metric and label names (no `__` prefix, no `le` on histograms, no `quantile` on summaries), label values valid UTF-8; counter increments are non-negative integers with sums < 2^53 (Counter.Add panics on negatives and stores float64); bucket specs are non-empty, finite, strictly increasing (Prometheus panics otherwise / substitutes DefBuckets for an empty list), duration bounds stay distinct after conversion to float seconds (generated |d| <= 2^50 ns), one bucket spec per histogram name (a Prometheus family has one bucket layout)",
+            "canonicalMetricID(name, tagKeys) = KeyForPrefixedStringMap(name, keySet) is represented in the model by the pair (name, sorted tag keys): injective on delimiter-free (Prometheus-valid) names and keys, which is property C05",
+            "float64(d)/float64(time.Second) is computed by Go and passed to the model and the oracle as a bit pattern (the same expression is used by DurationBuckets.AsValues, DurationBucket and ReportTimer); theorems assume it strictly monotone on the spec's bounds (checked per case by the driver)",
+            "value agreement is claimed for series whose first use returned a usable metric, in histories that use each (name, tag set) for one metric object and do not reuse a name for two kinds; no-panic and the callback clause are claimed for all histories",
+            "summary quantiles and histogram/summary sums are not compared",
+        ],
+        "trusted_base": ["the obsReporter wrapper in the harness (passes every Allocate* call through to the real reporter and records the dynamic type of what came back)",
+                         "C03's theorems placeKey_placed / tiling_value / tiling_duration (re-checked by the kernel as imports)"],
+    },
+    "C04": {
+        "suites": ["scope-c04"],
+        "assumptions": COMMON_ASSUME + [
+            "Model.Scope is sequential: one API call at a time (concurrency of these paths is C01/C02/C07/C09)",
+            "the registry shard of a request is observed through a shim and given to the model as an input",
+            "two raw keys of ONE tag map that sanitize to the same key make the outcome depend on Go's map iteration order; the generator avoids them",
+        ],
+        "trusted_base": ["Model.Scope is tied to scope.go / scope_registry.go by the differential on random programs (plus the facts on fullyQualifiedName and the report call)"],
+    },
+    "C10": {
+        "suites": ["scope-c10", "c10instr"],
+        "assumptions": COMMON_ASSUME + [
+            "Model.Scope is sequential: one API call at a time (concurrency of these paths is C01/C02/C07/C09)",
+            "the registry shard of a request is observed through a shim and given to the model as an input",
+            "two raw keys of ONE tag map that sanitize to the same key make the outcome depend on Go's map iteration order; the generator avoids them",
+            "the clock is the scripted function installed through the verif shim; real elapsed time is not compared",
+        ],
+        "trusted_base": ["Model.Scope and Model.Instrument are tied by the differential on random histories"],
+    },
+    "C11": {
+        "suites": ["scope-c11"],
+        "assumptions": COMMON_ASSUME + [
+            "Model.Scope is sequential: one API call at a time (concurrency of these paths is C01/C02/C07/C09)",
+            "the registry shard of a request is observed through a shim and given to the model as an input",
+            "two raw keys of ONE tag map that sanitize to the same key make the outcome depend on Go's map iteration order; the generator avoids them",
+            "two metrics with the same full name and tags (e.g. SubScope(a).Counter(b) and Counter(a.b)) share one snapshot key: the theorems are per metric identity, the oracle groups by key",
+        ],
+        "trusted_base": ["Model.Scope.snapshot is tied by the differential on random histories with snapshots at random points"],
+    },
 }
